@@ -92,7 +92,9 @@ def sessions_of(lines):
             text = next((e["d"] for e in lsess if e["kind"] == "query"), None)
             fsess = []
             for i, cand in enumerate(fs):
-                if i in used or cand[0]["seq"] < lsess[0]["seq"]:
+                # (it begins after the leader asked and before the leader's handler returned: a
+                # handler whose connection is gone returns an error without reaching any follower)
+                if i in used or cand[0]["seq"] < lsess[0]["seq"] or cand[0]["seq"] > lsess[-1]["seq"]:
                     continue
                 if next((e["d"] for e in cand if e["kind"] == "query"), None) == text:
                     used.add(i)
